@@ -156,7 +156,10 @@ def stmt_src(s, ind):
     if k == 'csleep':
         return p + 'csleep(%d);' % s[1]
     if k == 'asm':
-        t = s[1].replace('\\', '\\\\').replace('\n', '\\n').replace('\t', '\\t')
+        esc = lambda x: x.replace('\\', '\\\\').replace('\n', '\\n').replace('\t', '\\t')
+        # ('asm', text, size, cuts): the text written as adjacent string literals cut at the given positions
+        cuts = [0] + sorted(s[3]) + [len(s[1])] if len(s) > 3 and s[3] else [0, len(s[1])]
+        t = ('" "' if len(cuts) % 2 else '"\n        "').join(esc(s[1][a:b]) for a, b in zip(cuts, cuts[1:]))
         if len(s) > 2 and s[2] is not None:
             return p + 'asm("%s", %d);' % (t, s[2])
         return p + 'asm("%s");' % t
